@@ -42,6 +42,7 @@ impl Rep {
 pub fn run(obligation: &str) -> i32 {
     let mut rep = Rep::new();
     std::panic::set_hook(Box::new(|_| {}));   // panics of the code under contract are reported as outcomes, not printed
+    if ["C06.generate_integer", "C06.integer_template", "C04.generate_typealias", "C04.generate_octet_string", "C04.generate_bit_string", "C04.typealias_template", "C04.octet_string_template", "C04.fixed_octet_string_template", "C04.bit_string_template", "C04.fixed_bit_string_template"].iter().any(|p| obligation.starts_with(p)) { gen_assignments(&mut rep); return rep.finish("GEN_assignments"); }
     if obligation.starts_with("C02.type_table") { gen_type_table(&mut rep); return rep.finish("GEN_type_table"); }
     if ["C02.format_member_or_option", "C02.format_sequence_member", "C02.format_choice_option", "C02.boxed_type", "C02.format_default_methods"].iter().any(|p| obligation.starts_with(p)) { gen_members(&mut rep); gen_default_methods(&mut rep); return rep.finish("GEN_members"); }
     if obligation.starts_with("C14.format_enum_members") || obligation.starts_with("C05.format_enum_members") { gen_enum_members(&mut rep); return rep.finish("GEN_enum_members"); }
@@ -127,6 +128,48 @@ fn gen_emission(rep: &mut Rep) {
             rep.check("C04.format_range_annotations.prefix_both_ends_and_extensible_exactly_as_folded", nows(text) == want, d);
         }
     } }
+}
+
+/// Native replay of unit GEN_assignments: constrained type assignments through the real generate_integer / _typealias / _octet_string /
+/// _bit_string (Backend::generate_module on one definition); expected newtype, range annotation and tag.
+fn gen_assignments(rep: &mut Rep) {
+    use rasn_compiler::verif_hooks::hook_generate_type;
+    let nows = |s: &str| s.chars().filter(|c| !c.is_whitespace()).collect::<String>();
+    let range = |lo: i128, hi: i128, ext: bool| Constraint::Subtype(ElementSetSpecs { set: ElementOrSetOperation::Element(SubtypeElements::ValueRange { min: Some(ASN1Value::Integer(lo)), max: Some(ASN1Value::Integer(hi)), extensible: false }), extensible: ext });
+    let size = |lo: i128, hi: i128, ext: bool| Constraint::Subtype(ElementSetSpecs { set: ElementOrSetOperation::Element(SubtypeElements::SizeConstraint(Box::new(ElementOrSetOperation::Element(if lo == hi { SubtypeElements::SingleValue { value: ASN1Value::Integer(lo), extensible: false } } else { SubtypeElements::ValueRange { min: Some(ASN1Value::Integer(lo)), max: Some(ASN1Value::Integer(hi)), extensible: false } })))), extensible: ext });
+    let tags = [None, Some(AsnTag { environment: TaggingEnvironment::Explicit, tag_class: TagClass::Application, id: 9 }), Some(AsnTag { environment: TaggingEnvironment::Implicit, tag_class: TagClass::Private, id: 2 })];
+    let tag_txt = |t: &Option<AsnTag>| match t { None => String::new(), Some(t) => if t.environment == TaggingEnvironment::Explicit { ",tag(explicit(application,9))".to_string() } else { ",tag(private,2)".to_string() } };
+    const ENDS: [i128; 10] = [-129, -128, -1, 0, 1, 255, 256, 65535, 65536, 1 << 40];
+    for tag in &tags {
+        for lo in ENDS { for hi in ENDS { if lo > hi { continue; } for ext in [false, true] {
+            let ann = format!("value(\"{}\"{})", if lo == hi { format!("{lo}") } else { format!("{lo}..={hi}") }, if ext { ",extensible" } else { "" });
+            // INTEGER (lo..hi[, ...])
+            let got = hook_generate_type(TaggingEnvironment::Automatic, false, &ASN1Type::Integer(Integer { constraints: vec![range(lo, hi, ext)], distinguished_values: None }), tag.clone());
+            let want = format!("#[rasn(delegate{},{ann})]pubstructT(pub{});", tag_txt(tag), type_name(spec_width(lo, hi, ext)));
+            let d = || format!("T ::= {}INTEGER ({lo}..{hi}{}) -> {}", if tag.is_some() { "[tag] " } else { "" }, if ext { ", ..." } else { "" }, match &got { Ok(t) => nows(t), Err(e) => format!("ERR {e}") });
+            rep.check("C06.generate_integer.fails_only_when_a_callee_fails", got.is_ok(), d);
+            rep.check("C06.generate_integer.newtype_over_the_width_selected_for_this_types_constraints_with_its_signed_range_and_own_tag", matches!(&got, Ok(t) if nows(t).contains(&want)), d);
+            // T ::= Other (lo..hi[, ...])
+            let got = hook_generate_type(TaggingEnvironment::Automatic, false, &ASN1Type::ElsewhereDeclaredType(DeclarationElsewhere { parent: None, module: None, identifier: "Other".into(), constraints: vec![range(lo, hi, ext)] }), tag.clone());
+            let want = format!("#[rasn(delegate{},{ann})]pubstructT(pubOther);", tag_txt(tag));
+            let d = || format!("T ::= {}Other ({lo}..{hi}{}) -> {}", if tag.is_some() { "[tag] " } else { "" }, if ext { ", ..." } else { "" }, match &got { Ok(t) => nows(t), Err(e) => format!("ERR {e}") });
+            rep.check("C04.generate_typealias.fails_only_when_a_callee_fails", got.is_ok(), d);
+            rep.check("C04.generate_typealias.newtype_over_the_referenced_type_with_the_alias_own_constraints_folded_signed", matches!(&got, Ok(t) if nows(t).contains(&want)), d);
+        } } }
+        for lo in [0i128, 1, 8, 64] { for hi in [0i128, 1, 8, 64, 100] { if lo > hi { continue; } for ext in [false, true] { for bits in [false, true] {
+            let ty = if bits { ASN1Type::BitString(BitString { constraints: vec![size(lo, hi, ext)], distinguished_values: None }) } else { ASN1Type::OctetString(OctetString { constraints: vec![size(lo, hi, ext)] }) };
+            let got = hook_generate_type(TaggingEnvironment::Automatic, false, &ty, tag.clone());
+            let fixed = lo == hi && !ext;
+            let base = if bits { "BitString" } else { "OctetString" };
+            let want = if fixed { format!("#[rasn(delegate{})]pubstructT(pubFixed{base}<{lo}usize>);", tag_txt(tag)) }
+                       else { format!("#[rasn(delegate{},size(\"{}\"{}))]pubstructT(pub{base});", tag_txt(tag), if lo == hi { format!("{lo}") } else { format!("{lo}..={hi}") }, if ext { ",extensible" } else { "" }) };
+            let d = || format!("T ::= {}{} (SIZE({lo}..{hi}){}) -> {}", if tag.is_some() { "[tag] " } else { "" }, if bits { "BIT STRING" } else { "OCTET STRING" }, if ext { ", ..." } else { "" }, match &got { Ok(t) => nows(t), Err(e) => format!("ERR {e}") });
+            let ok = matches!(&got, Ok(t) if nows(t).contains(&want));
+            let name = match (bits, fixed) { (false, true) => "C04.generate_octet_string.fixed_size_gives_FixedOctetString_of_that_size_with_the_common_annotations_only", (false, false) => "C04.generate_octet_string.otherwise_OctetString_with_the_size_annotation_of_its_constraints",
+                (true, true) => "C04.generate_bit_string.fixed_size_gives_FixedBitString_of_that_size_with_the_common_annotations_only", (true, false) => "C04.generate_bit_string.otherwise_BitString_with_the_size_annotation_of_its_constraints" };
+            rep.check(name, ok, d);
+        } } } }
+    }
 }
 
 /// Native replay of unit GEN_type_table: Rasn::constraints_and_type_name on the real crate against the table of C02, element types
